@@ -21,6 +21,8 @@ from concurrent.futures import ThreadPoolExecutor
 import vlib
 from . import c08
 
+# the race-freedom part of C06 is validated (TSan, traces), not proved: partial by nature (DESIGN.md section 6)
+FORCE_LEVEL = "other"
 HARNESSES = [("dispatch_driver", "asan"), ("dispatch_driver", "tsan"), ("parjob_driver", "tsan")]
 CORPUS = os.path.join(vlib.VERIF, "corpus", "C06")
 
